@@ -164,8 +164,8 @@ def run_case(case):
             except Exception:      # noqa: BLE001 - the kind of rejection is not judged
                 res = "raise"
             r.labels.append("unhashable-argument")
-            if res is True:
-                r.fail("C27/unhashable-accepted", "step %d %r returned True" % (i, op))
+            if not isinstance(res, str) and res:
+                r.fail("C27/unhashable-accepted", "step %d %r reported a change: %r" % (i, op, res))
                 return r
             if (nm.addrByName, nm.nameByAddr) != (before_a, before_n):
                 r.fail("C27/rejected-op-changed-state", "step %d %r -> %r changed %r / %r to %r / %r" % (
